@@ -40,7 +40,12 @@ RULE = ("one case per (public operation, parameter class, shape[, memory layout]
         "(receiver produced by normalize/arrange/redistribute, by S-S / S+S / S*S / a region read / a copy=False construction; result "
         "written through pyttb's own __setitem__; model of one run reused as the next run's init; optimizer object reused), the second application "
         "of every in-place method to the same receiver, the second run of every algorithm on the very same data / init / optimizer objects (the "
-        "first run's result is an operand of the second), maxiters=0 / max_iters=0 / maxiter=0; rows of an open finding are split into the part "
+        "first run's result is an operand of the second), maxiters=0 / max_iters=0 / maxiter=0; (wave 5) the EMPTY SELECTION for every operation that takes a list of "
+        "modes / multiplicands / subscripts / components where pyttb admits it (ttv over no mode in both spellings for all five classes, collapse(dims=[]), "
+        "matricisations with no row or no column mode, ttensor.ttm / reconstruct over no mode, ttt over no pair, update with no mode, no subscript row) and its "
+        "counterpart 'everything selected', requests pyttb must refuse (permute / scale / tensor.ttm over no mode, ill-formed update) as rows that demand every operand "
+        "untouched, receivers without stored entries against every operand kind, the functions of module pyttb.cp_apr enumerated (row-subproblem helpers "
+        "called the way the solvers call them); rows of an open finding are split into the part "
         "showing exactly the finding (operand buffer set, aspect) and sibling rows for everything else; "
         "non-trivial = the table entry returns or updates arrays (kind pure / inplace / nocopy, not scalar / property / attribute) and "
         "its operands hold at least one non-empty array; distinct = distinct (op, parameter class, shape, seed, layout); one "
@@ -51,8 +56,10 @@ CORRESPONDENCE_ONLY = ["disjointness of result and operand buffers per (operatio
                        "__getitem__/to_tensor/ctranspose/double, sptensor.__init__/copy/find, sptenmat.__init__/copy, ktensor.__init__/copy/extract/tolist, "
                        "ttensor.__init__/copy, khatrirao single matrix, to_memory_order) whose may-alias verdict is a theorem over the numpy view model; there "
                        "the model itself is tied to pyttb by hand transliteration + sharing-skeleton check + agreement with the measured verdict on every generated row",
-                       "cp_apr / gcp helper functions: an explicit list (tt_loglikelihood, calculate_pi, calculate_phi, vectorize_for_mu, fg.evaluate, fg_est.estimate, "
-                       "samplers.uniform/stratified/semistrat/nonzeros/zeros), not an enumeration; the other row-subproblem helpers of cp_apr only through cp_apr"]
+                       "negative-stride arguments: the verdicts of tensor / tenmat / ktensor / sptensor __init__ and khatrirao(single) are theorems over the signed view "
+                       "model Model/C05ViewZ.v (compared with the measurement on every negstride row); every other operation on negative-stride operands is measured only",
+                       "gcp helper functions: an explicit list (fg.evaluate, fg_est.estimate, samplers.uniform/stratified/semistrat/nonzeros/zeros), not an enumeration "
+                       "(module pyttb.cp_apr IS enumerated since wave 5: namespace cpapr, an unlisted function fails the check)"]
 ASSUMPTIONS = [
     "np.shares_memory is exact on the small arrays used; the generic object walker (slots/__dict__/list/tuple/dict/scipy "
     "sparse) reaches every buffer of an operand or result (cross-checked by the in-place sentinel writes in both directions and by the read-only variant)",
@@ -61,14 +68,16 @@ ASSUMPTIONS = [
     "indices, C/F/strided/window/negative-stride/read-only operands, already-symmetric / all-ones / identical-pattern data, first vs second use ...) are representative",
     "optimizer/solver objects passed to gcp_opt or used directly are tracked as operands (every attribute reachable "
     "from the object is snapshotted); that the stochastic solvers keep their run state in exactly the attributes named by finding C05-N10 is known, any other change is reported",
-    "numpy view model (Model/C05View.v, C05View2.v): non-negative strides; reshape(order='F') of an array that is neither F-contiguous nor of the "
+    "numpy view model: Model/C05View.v / C05View2.v have non-negative strides, Model/C05ViewZ.v (wave 5) has signed offsets / strides for the constructors and is "
+    "proved to coincide with C05View on non-negative strides; reshape(order='F') of an array that is neither F-contiguous nor of the "
     "requested shape is modelled as a copy (numpy may still find a view); zero-size arrays are not special-cased; the model's verdict "
     "is compared with the measured one on every generated row of a transliterated operation",
 ]
 EXPLANATION = ("Level other: C05_frame/C05_copy/C05_inplace_footprint are proved for all stores and write histories, C05_view_frame / C05_view_write_visible "
                "for writes through views at cell granularity; the numpy view model "
                "(arrays = windows onto buffers) proves which numpy steps allocate and which alias, and from that the may-alias verdict "
-               "of 26 transliterated pyttb return paths for all arrays/parameters (C05_*_verdict). For every other operation the "
+               "of 26 transliterated pyttb return paths for all arrays/parameters (C05_*_verdict), and (C05_z_*) that a reversed view is a view showing exactly "
+               "the base's cells, is never contiguous, and makes the F-order-insisting no-copy constructors allocate. For every other operation the "
                "hypothesis (result buffers disjoint from operand buffers) is measured here per operation x parameter class x layout "
                "and each measured row is evaluated by the Coq checker row_check, proved sound and complete (operands unchanged, disjoint, no-copy constructions "
                "share only the same-position buffer, and the cross-write observations agree with what the frame theorem predicts).")
